@@ -1,7 +1,7 @@
 (* Genesis: validation (types/genesis.go, types/component/*/genesis.go), initialisation and export
    (keeper/genesis.go, keeper/component/*/genesis.go).  Absent (nil) Go pointers are [None]. *)
 From Coq Require Import String Ascii List ZArith Bool.
-From Orbiter Require Import Lib.Str Lib.Res Gen.Constants Model.Ids Model.State Model.Msgs.
+From Orbiter Require Import Lib.Str Lib.Res Gen.Constants Model.Ids Model.Denom Model.State Model.Msgs.
 Import ListNotations.
 Open Scope string_scope.
 Open Scope Z_scope.
@@ -19,7 +19,7 @@ Definition ccid_ok (c : option ccid) : bool := match c with Some c => ccid_valid
 
 (* DispatchedAmountEntry.Validate / DispatchCountEntry.Validate *)
 Definition amount_valid (a : gen_amount) : bool :=
-  negb (String.eqb (ga_denom a) "") && ccid_ok (ga_src a) && ccid_ok (ga_dst a) &&
+  negb (String.eqb (ga_denom a) "") && valid_denom (ga_denom a) && ccid_ok (ga_src a) && ccid_ok (ga_dst a) &&
   (0 <=? ga_in a) && (0 <=? ga_out a) && ((0 <? ga_in a) || (0 <? ga_out a)).
 (* the count is a uint64: "not zero" is "positive" *)
 Definition count_valid (c : gen_count) : bool :=
@@ -76,7 +76,8 @@ Definition set_amount (o : ostate) (a : gen_amount) : res ostate :=
   match ga_dst a with
   | Some d =>
       let k := {| ak_sp := c_proto s; ak_sc := c_cp s; ak_dst := ccid_id d; ak_denom := ga_denom a |} in
-      if negb (key_str_ok (c_cp s) && key_str_ok (ccid_id d)) then Err "key encoding: string contains the terminator"
+      (* in the by-destination index the denomination is a non-terminal string too *)
+      if negb (key_str_ok (c_cp s) && key_str_ok (ccid_id d) && key_str_ok (ga_denom a)) then Err "key encoding: string contains the terminator"
       else match parse_ccid (ccid_id d) with
            | None => Err "index: error parsing destination cross-chain id"
            | Some _ => Ok (set_stats o (mset cmp_ak k (ga_in a, ga_out a) (amounts o)) (counts o))
